@@ -661,9 +661,16 @@ func (p *Parser) applyPrefixNewlines(v *lisp.LVal, newlines int, spaces int) {
 			m.BlankLinesBefore = n - 1
 		}
 	} else {
-		if newlines >= 1 {
-			m.NewlineBefore = true
-		}
+		// ASSIGNED, not only set: tokenLVal filled these in from the token
+		// under the cursor when the node was built, and for a prefix form
+		// that is the operand's LAST token.  "(f (lisp:expr (a\n)))" and
+		// "(f #^(a\n))" therefore recorded the ')' standing on its own line
+		// as a newline BEFORE the #^ form; the formatter moved the form to a
+		// new line, and because the longhand takes one extra pass to get
+		// there, Format was not idempotent.  The prefix token is this node's
+		// first token, so its gap is the node's gap, whatever it is.
+		m.NewlineBefore = newlines >= 1
+		m.BlankLinesBefore = 0
 		if newlines > 1 {
 			m.BlankLinesBefore = newlines - 1
 		}
